@@ -79,6 +79,23 @@ func TransportSafe(loc valgen.Loc, v any) bool {
 		}
 		return true
 	}
+	if mm, ok := vtree.IsMap(v); ok {
+		if loc == valgen.Body {
+			return true
+		}
+		for k, e := range mm {
+			// goa's documented spelling of a map in the query string is name[key]=value: a key holding a
+			// bracket (or nothing) cannot be spelled that way
+			kt := vtree.Text(k)
+			if kt == "" || strings.ContainsAny(kt, "[]") || !TransportSafe(loc, k) || !TransportSafe(loc, e) {
+				return false
+			}
+			if arr, isArr := e.([]any); isArr && len(arr) == 0 {
+				return false // an entry without values has no spelling either
+			}
+		}
+		return true
+	}
 	if vtree.Kind(v) != "s" {
 		return true
 	}
@@ -199,6 +216,21 @@ func Payload(sp *spec.Spec, m *spec.Method, r *vc.Rand, mode int) (tree any, non
 				continue
 			}
 			v = arr
+		}
+		if mm, ok := vtree.IsMap(v); ok && len(mm) == 0 && loc != valgen.Body {
+			if !req {
+				continue // an empty map outside the body is absence
+			}
+			found := false
+			for i := 0; i < 40 && !found; i++ {
+				w := g.Valid(a.Type, a.Val, loc, 1)
+				if wm, ok := vtree.IsMap(w); ok && len(wm) > 0 && TransportSafe(loc, w) {
+					v, found = w, true
+				}
+			}
+			if !found {
+				return nil, false
+			}
 		}
 		o[a.Name] = v
 	}
